@@ -85,6 +85,14 @@ def wf_table(rng, sep, transposed=None, kinds=None, n_row=None):
         if (transposed or not names) and classify(nm) is not None:
             continue
         names.append(nm)
+    # column names that differ only in letter case (or only after case folding) are different names
+    if len(names) >= 2 and rng.random() < 0.2:
+        base = names[0]
+        for cand in (base.swapcase(), base.upper(), base.lower(), base + "ß" if False else base.replace("ss", "ß")):
+            if cand != base and cand not in names and cand.strip("".join(chr(c) for c in rc.SPACE_CPS)) == cand \
+                    and not any(c in bad for c in cand) and (not transposed or classify(cand) is None):
+                names[1] = cand
+                break
     # 4. units
     units = []
     for j, k in enumerate(kinds):
